@@ -45,7 +45,7 @@ META = {
     ],
     "bounds": {
         "quick": {"symbolic_bytes_total_max": 3, "cuts": "all single cuts within 12 bytes of symbolic content/delimiters + bytewise; "
-                  "2-cut pairs within 4 bytes on the decoder for <=2 symbolic bytes", "boundaries": 3},
+                  "2-cut pairs within 4 bytes on the decoder for <=2 symbolic bytes", "boundaries": 5},
         "thorough": {"symbolic_bytes_total_max": 5, "cuts": "all single cuts + bytewise + 2-cut pairs within 4 bytes", "boundaries": 5},
     },
     "outside": ["more symbolic content bytes than the bound", "non-ASCII field text", "bare-CR / bare-LF framing",
@@ -69,6 +69,8 @@ def templates(nsym_max: int, thorough: bool):
         T.append(("file-crlf-dash+1", [("file", 1, b"\r\n--", b"")]))
         T.append(("file-1+cr", [("file", 1, b"", b"\r")]))
         T.append(("file-1+crlfdash", [("file", 1, b"x", b"\r\n-")]))
+        T.append(("field-utf8+1", [("field", 1, "Z\u00fc".encode(), b"")]))
+        T.append(("field-1+utf8", [("field", 1, b"", "\u20ac!".encode())]))
     if nsym_max >= 2:
         T.append(("file-lf+2", [("file", 2, b"\n", b"")]))
         T.append(("field1+file1", [("field", 1, b"", b""), ("file", 1, b"", b"")]))
@@ -85,6 +87,7 @@ VARIANTS = [
     dict(label="rich", names=("a;b", "n m"), filename="x y;z.bin", extra=(("Content-Type", "application/x-thing"), ("X-Extra", "1; q=\"2\"")),
          pre=b"this is a preamble", epi=b"trailing epilogue\r\n"),
     dict(label="emptyfn", names=("f", "g"), filename="", extra=(), pre=b"", epi=b""),
+    dict(label="seps", names=("a\x1cb", "x\u2028y"), filename="f\x0bg\x85.txt", extra=(("X-Note", "v\x0cw"),), pre=b"", epi=b""),
     dict(label="utf8", names=("é", "名"), filename="naïve.txt", extra=(("Content-Type", "text/plain"),), pre=b"", epi=b"e"),
 ]
 
@@ -174,7 +177,16 @@ def run_job(job) -> report.JobResult:
                         if SBytes(p.content).find(delim) != -1:
                             raise Engine.cur._raise(Pruned())
                     chunks = [C.mk_chunk(c) for c in C.split(body, cuts, empty)]
-                    return C.run_entry(entry, chunks, boundary)
+                    got = C.run_entry(entry, chunks, boundary)
+                    # field text is the UTF-8 decoding of the field's bytes (symbolic bytes of fields are ASCII, fixed fragments may be multi-byte)
+                    exp_now = []
+                    for x in exp:
+                        if entry != "decoder" and x[0] == "field" and any((not isinstance(c, SInt)) and c > 127 for c in x[2]):
+                            from engine.symseq import _items_of
+                            exp_now.append(("field", x[1], _items_of(SBytes(x[2]).decode("utf-8"))))
+                        else:
+                            exp_now.append(x)
+                    return got, exp_now
 
                 def on_path(e, r, entry=entry, cuts=cuts, empty=empty):
                     kind, v = r
@@ -183,14 +195,15 @@ def run_job(job) -> report.JobResult:
                     elif kind == "exc":
                         klass = f"exception:{type(v).__name__}"
                     else:
-                        klass = compare(e, v, exp)
+                        v, exp_path = v
+                        klass = compare(e, v, exp_path)
                     if klass is None or not klass.startswith("content-mismatch"):
                         e.check()
                     m = e.solver.model()
                     cbody = bytes(conc(body, m))
                     with shims.off():
                         real = C.run_concrete(entry, cbody, cuts, boundary, empty)
-                    cexp = concrete_expected(parts, m)
+                    cexp = concrete_expected(parts, m, raw=(entry == "decoder"))
                     if klass is not None:
                         reproduced = (real != cexp) or twin
                         res.violation(f"C01/{entry}/{klass.split(':')[0]}",
@@ -210,12 +223,15 @@ def run_job(job) -> report.JobResult:
     return res
 
 
-def concrete_expected(parts, m):
+def concrete_expected(parts, m, raw=False):
     out = []
     for p in parts:
         content = bytes(conc(list(p.content), m))
         if p.kind == "field":
-            out.append(("field", p.name, content.decode("latin-1")))
+            try:
+                out.append(("field", p.name, content.decode("latin-1" if raw else "utf-8")))  # event-level decoder: raw bytes
+            except UnicodeDecodeError:
+                out.append(("field", p.name, content.decode("latin-1")))
         else:
             hdrs = {"content-disposition": p.header_bytes().decode("utf-8").split("\r\n")[0].split(": ", 1)[1]}
             for k, v in p.extra:
@@ -239,7 +255,7 @@ def jobs(tier: str):
                     continue
                 if vi > 0 and bi > 1:
                     continue
-                if bi == 4 and nsym > 1:
+                if bi >= 3 and nsym > 1:
                     continue
                 dec_mode = "cut2" if (nsym <= (3 if thorough else 2) and bi == 0 and vi == 0) else "cut1"
                 out.append(dict(name=f"{label}/b{bi}/{VARIANTS[vi]['label']}/decoder", tmpl=tmpl, boundary=bi, variant=vi,
